@@ -117,7 +117,8 @@ Inductive cache_ev :=
 | EvPodAdd (t : task)                       (* a pod arrives (possibly before its node) *)
 | EvUpdateUnbound (tid : positive)          (* pod update / resync whose object still has no nodeName *)
 | EvBoundArrives (tid : positive)           (* the update that shows the pod bound where the cache bound it *)
-| EvRemoveNode (nid : positive).            (* node deleted *)
+| EvRemoveNode (nid : positive)             (* node deleted *)
+| EvUnbind (tid nid : positive).            (* bind execution failed (PreBind / Bind): resyncTask takes the task off the node *)
 
 Definition node_set_acc (n : node) (t : task) : node :=
   let r := t_req t in
@@ -234,6 +235,12 @@ Definition cache_event (c : cache) (e : cache_ev) : cache :=
               (if bool_decide (n_tasks n = ∅) then delete nid (c_nodes c)
                else <[nid := mkNode nid false empty_res empty_res empty_res empty_res empty_res (n_tasks n)]> (c_nodes c))
     end
+  | EvUnbind tid nid =>
+    (* only the node part (agentscheduler resyncTask 1: node.RemoveTask); not generated for this cache *)
+    match c_nodes c !! nid with
+    | Some n => mkCache (c_heap c) (c_jobs c) (<[nid := node_remove n tid]> (c_nodes c))
+    | None => c
+    end
   end.
 
 (* the node (smallest id) on which a task is held as Binding *)
@@ -269,6 +276,8 @@ Definition agent_event (tasks : positive -> option task) (ns : gmap positive nod
     end
   (* agentscheduler RemoveNode: the entry is dropped together with what it held *)
   | EvRemoveNode nid => delete nid ns
+  (* agentscheduler cache.go executePreBinds / Bind failure -> resyncTask: node.info.RemoveTask(task) *)
+  | EvUnbind tid nid => match ns !! nid with Some n => <[nid := node_remove n tid]> ns | None => ns end
   end.
 
 Inductive cache_op := OpBind (r : bind_req) | OpEv (e : cache_ev).
